@@ -168,7 +168,7 @@ THOROUGH = QUICK + ['sc', 'fcc', 'bcc', 'diamond', 'b2', 'bccoct', 'hcpoct', 'sq
 def sections(tier):
     S = run.Section
     secs = []
-    bud = 170 if tier == 'quick' else 3000
+    bud = 170 if tier == 'quick' else 1200
     for c in (QUICK if tier == 'quick' else THOROUGH):
         stride = 2
         for gsel in range(stride):
